@@ -186,7 +186,24 @@ fn enc_tree(t: &[Br]) -> String {
 // ---------------------------------------------------------------------------------------------
 // generators
 
+/// `serde_json` prints a payload that is not finite as `null`; in the canonical lines `null` is this token (an
+/// all-ones NaN pattern, which no printed number reads back to)
+const NULL_PAYLOAD: u64 = u64::MAX;
+
+fn rendered_bits(x: f64) -> u64 {
+    if x.is_finite() {
+        x.to_bits()
+    } else {
+        NULL_PAYLOAD
+    }
+}
+
 fn payload(rng: &mut Rng) -> f64 {
+    if rng.chance(1, 10) {
+        // costs and state variables are opaque to the output formats: also negative values, a negative zero and the
+        // values JSON cannot write
+        return [f64::INFINITY, f64::NEG_INFINITY, f64::NAN, -f64::NAN, f64::from_bits(0x7FF0_0000_0000_0001), -0.0, -1.5, f64::MAX, f64::MIN_POSITIVE, 5.0e-324][rng.below(10)];
+    }
     match rng.below(4) {
         0 => rng.small_decimal(50, 2),
         1 => rng.uniform(0.0, 1.0e4),
@@ -267,11 +284,15 @@ impl EtP {
         v
     }
     fn of(e: &Et) -> EtP {
-        EtP { edge: e.edge as u64, acc: e.acc.to_bits(), trav: e.trav.to_bits(), state: e.state.iter().map(|x| x.to_bits()).collect() }
+        // what the record shows: the edge id, every finite payload bit for bit, `null` for the others
+        EtP { edge: e.edge as u64, acc: rendered_bits(e.acc), trav: rendered_bits(e.trav), state: e.state.iter().map(|x| rendered_bits(*x)).collect() }
     }
 }
 
 fn f64_of(v: &Value) -> Result<u64, String> {
+    if v.is_null() {
+        return Ok(NULL_PAYLOAD);
+    }
     v.as_f64().map(|x| x.to_bits()).ok_or_else(|| "not-a-number".to_string())
 }
 
@@ -912,6 +933,39 @@ fn route_case(ctx: &mut Ctx, idx: usize, fmt_i: usize, table: &[Vec<Pt>], route:
         ctx.nontrivial(&format!("route {} {} {}", fname, enc_table(table), enc_route(route)));
     }
     check_route(ctx, idx, "generate_route_output", fname, table, route, &parsed);
+}
+
+/// the WKB text of a route over an in-memory table that holds NaNs (quiet, signalling, negative) and infinities:
+/// exercises the f32 -> f64 widening of every non-finite class; compared as exact hex text with the model
+fn wkb_hex_case(ctx: &mut Ctx, idx: usize, table: &[Vec<Pt>], route: &[Et]) {
+    let geoms = real_table(table);
+    let rr = real_route(route);
+    let res = catch_unwind(AssertUnwindSafe(|| TraversalOutputFormat::Wkb.generate_route_output(&rr, &geoms)));
+    let line = match &res {
+        Err(_) => "panic".to_string(),
+        Ok(Err(e)) => err_kind(e),
+        Ok(Ok(v)) => match v.as_str() {
+            Some(s) => format!("ok {}", s),
+            None => "unparsable wkb-not-string".to_string(),
+        },
+    };
+    let case = format!("wkbhex {} {}", enc_table(table), enc_route(route));
+    ctx.emit(idx, case.clone(), line.clone());
+    ctx.nontrivial(&case);
+    ctx.count("route_wkb_nonfinite_table");
+    // oracle: the text is the header plus 16 bytes per stored point of the route's rows, or an error on a missing row
+    let ids: Vec<usize> = route.iter().map(|e| e.edge).collect();
+    match (expected_concat(table, &ids), &res) {
+        (Some(w), Ok(Ok(v))) => {
+            if v.as_str().map(|s| s.len()) != Some(2 * (9 + 16 * w.len())) {
+                ctx.fail(idx, "generate_route_output/geometry", format!("wkb text of {} points has {} characters", w.len(), v.as_str().map(|s| s.len()).unwrap_or(0)));
+            }
+        }
+        (None, Ok(Err(_))) => {}
+        (None, Ok(Ok(_))) => ctx.fail(idx, "generate_route_output/missing-geometry-not-error", "wkb over a table with non-finite coordinates".into()),
+        (Some(_), _) => ctx.fail(idx, "generate_route_output/unexpected-error", line),
+        (None, Err(_)) => ctx.fail(idx, "generate_route_output/unexpected-error", line),
+    }
 }
 
 fn tree_case(ctx: &mut Ctx, idx: usize, fmt_i: usize, table: &[Vec<Pt>], tree: &[Br]) {
@@ -1655,7 +1709,11 @@ enum GRow {
     Bad(usize),
 }
 
-const MALFORMED: [&str; 14] = [
+/// from this index on: rows whose text the `wkt` lexer accepts but which denote a coordinate that is not finite
+/// (NaN, an infinity, or a literal that overflows f32) — rejected by `parse_wkt_linestring` since the repair
+const NONFINITE_FROM: usize = 14;
+
+const MALFORMED: [&str; 23] = [
     "",
     " ",
     "LINESTRING (1 2, 3 4",
@@ -1670,6 +1728,15 @@ const MALFORMED: [&str; 14] = [
     "0,LINESTRING (1 2, 3 4)",
     "LINESTRING (NaN 2, 3 4)",
     "SRID=4326;LINESTRING (1 2, 3 4)",
+    "LINESTRING (-105.1 39.5, +NaN 39.6)",
+    "LINESTRING (-nan 2, 3 4)",
+    "LINESTRING (1 2, 3 +INF)",
+    "LINESTRING (1e39 0, 0 0)",
+    "LINESTRING (1 2, 3 -inf)",
+    "LINESTRING (-infinity 2, 3 4)",
+    "LINESTRING (1 -1e39, 3 4)",
+    "LINESTRING (3.5e38 0, 1 1)",
+    "LINESTRING Z (1 2 3, +NaN 5 6)",
 ];
 
 fn grow_text(r: &GRow) -> String {
@@ -1685,6 +1752,11 @@ fn grow_text(r: &GRow) -> String {
                 2 => format!("linestring ({})", pts(", ", false)),
                 3 => format!("  LINESTRING ({})  ", pts(", ", false)),
                 4 => format!("LINESTRING Z ({})", pts(", ", true)),
+                // what the third-party parser tolerates after / inside the geometry (rows exported with extra columns)
+                6 => format!("LINESTRING ({}),17,\"Main St\"", pts(", ", false)),
+                7 => format!("LINESTRING ({}) garbage", pts(", ", false)),
+                8 => format!("LINESTRING M ({})", pts(", ", true)),
+                9 => format!("LINESTRING ZM ({})", l.iter().map(|(x, y)| format!("{} {} 7 8", x, y)).collect::<Vec<_>>().join(", ")),
                 _ => format!("LINESTRING ({})", pts(", ", false)),
             }
         }
@@ -1707,6 +1779,9 @@ fn enc_grows(rows: &[GRow]) -> String {
 
 #[derive(Clone, Copy, Debug)]
 struct FileShape {
+    /// the path is a file but cannot be opened: mode 000, and the loader is called by an unprivileged user
+    /// (forked child, uid 65534); implies `!readable`
+    noperm: bool,
     readable: bool,
     /// false: the byte stream does not decode to its end — a gzip member cut off in the middle, or
     /// (`bad_utf8`) a line that is not UTF-8
@@ -1721,8 +1796,10 @@ fn gen_file_shape(rng: &mut Rng, n_rows: usize, last_row_empty: bool) -> FileSha
     let gz = rng.chance(1, 3);
     let cut = gz && n_rows >= 1 && rng.chance(1, 8);
     let bad_utf8 = !cut && rng.chance(1, 10);
+    let readable = !rng.chance(1, 12);
     FileShape {
-        readable: !rng.chance(1, 15),
+        noperm: !readable && is_root() && rng.chance(1, 2),
+        readable,
         intact: !(cut || bad_utf8),
         bad_utf8,
         gz,
@@ -1732,15 +1809,71 @@ fn gen_file_shape(rng: &mut Rng, n_rows: usize, last_row_empty: bool) -> FileSha
     }
 }
 
+fn is_root() -> bool {
+    unsafe { libc::geteuid() == 0 }
+}
+
+/// runs `f` in a forked child that has dropped to uid/gid 65534 and returns the line it produced
+fn as_nobody(f: impl FnOnce() -> String) -> String {
+    unsafe {
+        let mut fds = [0i32; 2];
+        if libc::pipe(fds.as_mut_ptr()) != 0 {
+            return "nobody-unavailable".into();
+        }
+        let pid = libc::fork();
+        if pid < 0 {
+            return "nobody-unavailable".into();
+        }
+        if pid == 0 {
+            libc::close(fds[0]);
+            let devnull = libc::open(b"/dev/null\0".as_ptr() as *const libc::c_char, libc::O_WRONLY);
+            if devnull >= 0 {
+                libc::dup2(devnull, 2);
+            }
+            libc::alarm(20);
+            let dropped = libc::setgroups(0, std::ptr::null()) == 0 && libc::setgid(65534) == 0 && libc::setuid(65534) == 0;
+            let msg = if dropped { catch_unwind(AssertUnwindSafe(f)).unwrap_or_else(|_| "panic".to_string()) } else { "nobody-unavailable".to_string() };
+            let b = msg.as_bytes();
+            let mut off = 0;
+            while off < b.len() {
+                let n = libc::write(fds[1], b[off..].as_ptr() as *const libc::c_void, b.len() - off);
+                if n <= 0 {
+                    break;
+                }
+                off += n as usize;
+            }
+            libc::_exit(0);
+        }
+        libc::close(fds[1]);
+        let mut buf = Vec::new();
+        let mut chunk = [0u8; 4096];
+        loop {
+            let n = libc::read(fds[0], chunk.as_mut_ptr() as *mut libc::c_void, chunk.len());
+            if n <= 0 {
+                break;
+            }
+            buf.extend_from_slice(&chunk[..n as usize]);
+        }
+        libc::close(fds[0]);
+        let mut status = 0i32;
+        libc::waitpid(pid, &mut status, 0);
+        if buf.is_empty() {
+            "diverges".into()
+        } else {
+            String::from_utf8_lossy(&buf).to_string()
+        }
+    }
+}
+
 fn enc_shape(f: &FileShape) -> String {
-    format!("{} {} {} {} {}", f.readable as u8, f.intact as u8, f.gz as u8, f.crlf as u8, f.final_nl as u8)
+    format!("{} {} {} {} {} {}", (f.readable || f.noperm) as u8, f.readable as u8, f.intact as u8, f.gz as u8, f.crlf as u8, f.final_nl as u8)
 }
 
 /// writes the rows as the shape says; returns the path (which does not exist when `!readable`)
 fn write_table_file(dir: &str, name: &str, rows: &[String], f: &FileShape) -> String {
     let path = format!("{}/{}", dir, name);
     let _ = std::fs::remove_file(&path);
-    if !f.readable {
+    if !f.readable && !f.noperm {
         return path;
     }
     let sep = if f.crlf { "\r\n" } else { "\n" };
@@ -1773,6 +1906,10 @@ fn write_table_file(dir: &str, name: &str, rows: &[String], f: &FileShape) -> St
         text
     };
     std::fs::write(&path, bytes).expect("write table file");
+    if f.noperm {
+        use std::os::unix::fs::PermissionsExt;
+        std::fs::set_permissions(&path, std::fs::Permissions::from_mode(0o000)).expect("chmod");
+    }
     path
 }
 
@@ -1780,7 +1917,25 @@ fn gen_grows(rng: &mut Rng, n: usize, bad_chance: u64) -> Vec<GRow> {
     let table = gen_table(rng, n, true, false);
     table
         .into_iter()
-        .map(|l| if bad_chance > 0 && rng.chance(1, bad_chance) { GRow::Bad(rng.below(MALFORMED.len())) } else { GRow::Well(l, rng.below(6)) })
+        .map(|mut l| {
+            if bad_chance > 0 && rng.chance(1, bad_chance) {
+                GRow::Bad(rng.below(MALFORMED.len()))
+            } else {
+                if rng.chance(1, 8) {
+                    // finite values at the ends of the f32 range, zeros and subnormals also come through files
+                    let exotic = [0.0f32, -0.0, f32::from_bits(1), f32::from_bits(0x0040_0001), f32::MIN_POSITIVE, f32::MAX, f32::MIN, 3.0e38, -3.0e38, 1.0e-40];
+                    for p in l.iter_mut() {
+                        if rng.chance(1, 2) {
+                            p.0 = exotic[rng.below(exotic.len())];
+                        }
+                        if rng.chance(1, 2) {
+                            p.1 = exotic[rng.below(exotic.len())];
+                        }
+                    }
+                }
+                GRow::Well(l, rng.below(12))
+            }
+        })
         .collect()
 }
 
@@ -1872,7 +2027,7 @@ fn load_case(ctx: &mut Ctx, idx: usize, dir: &str, rows: &[GRow], shape: &FileSh
         ctx.fail(idx, "geometry_file/truncated-gzip-hangs", format!("fs_utils::line_count did not return within 5 s on a gzip file of {} rows cut off in the middle (reached from TraversalPlugin::from_file and read_linestring_text_file)", rows.len()));
         return;
     }
-    let r = catch_unwind(AssertUnwindSafe(|| {
+    let work = || {
         let read = match geo_io_utils::read_linestring_text_file(&path) {
             Ok(t) => format!("ok {}", show_table(&t.iter().map(line_of_geo32).collect::<Vec<_>>())),
             Err(_) => "err io".to_string(),
@@ -1885,9 +2040,12 @@ fn load_case(ctx: &mut Ctx, idx: usize, dir: &str, rows: &[GRow], shape: &FileSh
             }
         };
         format!("read {} | plugin {}", read, plugin)
-    }));
+    };
+    let line = if shape.noperm { as_nobody(work) } else { catch_unwind(AssertUnwindSafe(work)).unwrap_or_else(|_| "panic".into()) };
     let _ = std::fs::remove_file(&path);
-    let line = r.unwrap_or_else(|_| "panic".into());
+    if shape.noperm {
+        ctx.count("load_no_read_permission");
+    }
     let case = format!("load {} {}", enc_shape(shape), enc_grows(rows));
     ctx.emit(idx, case.clone(), line.clone());
     ctx.nontrivial(&case);
@@ -1899,7 +2057,14 @@ fn load_case(ctx: &mut Ctx, idx: usize, dir: &str, rows: &[GRow], shape: &FileSh
     match intended_table(rows, shape) {
         None => {
             ctx.count("load_rejected");
-            if line != "read err io | plugin err build" {
+            let only_nonfinite = shape.readable && shape.intact && rows.iter().all(|r| !matches!(r, GRow::Bad(k) if *k < NONFINITE_FROM));
+            if line != "read err io | plugin err build" && only_nonfinite {
+                ctx.fail(
+                    idx,
+                    "geometry_file/non-finite-coordinate-loaded",
+                    format!("rows {:?}: the table loads with a coordinate that is NaN / infinite; the formats then disagree (wkt prints text its own loader rejects, geo_json prints null): {}", texts, line.chars().take(200).collect::<String>()),
+                );
+            } else if line != "read err io | plugin err build" {
                 ctx.fail(idx, "geometry_file/bad-file-loaded", format!("rows {:?} shape {:?}: {}", texts, shape, line.chars().take(300).collect::<String>()));
             }
         }
@@ -1998,7 +2163,7 @@ fn uuid_load_case(ctx: &mut Ctx, idx: usize, dir: &str, rows: &[String], shape: 
         ctx.fail(idx, "uuid_file/truncated-gzip-hangs", format!("fs_utils::line_count did not return within 5 s on a gzip file of {} rows cut off in the middle (reached from UUIDOutputPlugin::from_file)", n));
         return;
     }
-    let r = catch_unwind(AssertUnwindSafe(|| match UUIDOutputPlugin::from_file(&path) {
+    let work = || match UUIDOutputPlugin::from_file(&path) {
         Err(e) => err_kind(&e),
         Ok(p) => {
             let sr: Result<(SearchAppResult, SearchInstance), CompassAppError> = Ok((app_result(&[], &[]), search_instance()));
@@ -2014,9 +2179,9 @@ fn uuid_load_case(ctx: &mut Ctx, idx: usize, dir: &str, rows: &[String], shape: 
             let beyond = if p.process(&mut out, &sr).is_err() { "err" } else { "ok" };
             format!("ok {} {} beyond {}", n, got.join(" "), beyond).replace("  ", " ")
         }
-    }));
+    };
+    let line = if shape.noperm { as_nobody(work) } else { catch_unwind(AssertUnwindSafe(work)).unwrap_or_else(|_| "panic".into()) };
     let _ = std::fs::remove_file(&path);
-    let line = r.unwrap_or_else(|_| "panic".into());
     let case = format!("uuidload {} {} {}", enc_shape(shape), n, rows.iter().map(|s| jsonproto::hex(s)).collect::<Vec<_>>().join(" ")).trim_end().to_string();
     ctx.emit(idx, case.clone(), line.clone());
     ctx.nontrivial(&case);
@@ -2487,6 +2652,25 @@ fn build_traversal_case(ctx: &mut Ctx, idx: usize, dir: &str, file: &FileParam<G
         params.insert("tree".into(), v.clone());
     }
     let case = format!("build trav {} {} {}", file_enc, enc_param(route), enc_param(tree));
+    let noperm = matches!(file, FileParam::File(_, shape) if shape.noperm);
+    if noperm {
+        // exists but does not open: only the error arm matters; the builder runs as an unprivileged user
+        let params = Value::Object(params);
+        let line = as_nobody(|| match (TraversalPluginBuilder {}).build(&params) {
+            Err(e) => config_err_kind(&e).to_string(),
+            Ok(_) => "ok built-without-read-permission".to_string(),
+        });
+        if let Some(p) = path_to_remove {
+            let _ = std::fs::remove_file(p);
+        }
+        ctx.emit(idx, case.clone(), line.clone());
+        ctx.nontrivial(&case);
+        ctx.count("build_no_read_permission");
+        if line.starts_with("ok") {
+            ctx.fail(idx, "traversal_builder/accepts-or-rejects-wrongly", format!("{} -> {}", case.chars().take(200).collect::<String>(), line));
+        }
+        return;
+    }
     let built = catch_unwind(AssertUnwindSafe(|| TraversalPluginBuilder {}.build(&Value::Object(params))));
     if let Some(p) = path_to_remove {
         let _ = std::fs::remove_file(p);
@@ -2556,6 +2740,24 @@ fn build_uuid_case(ctx: &mut Ctx, idx: usize, dir: &str, file: &FileParam<String
         }
     };
     let case = format!("build uuid {}", file_enc);
+    let noperm = matches!(file, FileParam::File(_, shape) if shape.noperm);
+    if noperm {
+        let params = Value::Object(params);
+        let line = as_nobody(|| match (UUIDOutputPluginBuilder {}).build(&params) {
+            Err(e) => config_err_kind(&e).to_string(),
+            Ok(_) => "ok built-without-read-permission".to_string(),
+        });
+        if let Some(p) = path_to_remove {
+            let _ = std::fs::remove_file(p);
+        }
+        ctx.emit(idx, case.clone(), line.clone());
+        ctx.nontrivial(&case);
+        ctx.count("build_no_read_permission");
+        if line.starts_with("ok") {
+            ctx.fail(idx, "uuid_builder/accepts-or-rejects-wrongly", format!("{} -> {}", case, line));
+        }
+        return;
+    }
     let built = catch_unwind(AssertUnwindSafe(|| UUIDOutputPluginBuilder {}.build(&Value::Object(params))));
     if let Some(p) = path_to_remove {
         let _ = std::fs::remove_file(p);
@@ -2588,7 +2790,7 @@ fn build_uuid_case(ctx: &mut Ctx, idx: usize, dir: &str, file: &FileParam<String
 
 fn new_streams(ctx: &mut Ctx, dir: &str) {
     // hand-written first: blank line in the middle, wrong geometry type, CSV-prefixed rows, a clean gzip file
-    let clean = FileShape { readable: true, intact: true, bad_utf8: false, gz: false, crlf: false, final_nl: true };
+    let clean = FileShape { noperm: false, readable: true, intact: true, bad_utf8: false, gz: false, crlf: false, final_nl: true };
     let l0: Vec<Pt> = vec![(1.0, 2.0), (3.0, 4.0)];
     let l1: Vec<Pt> = vec![(5.0, 6.0), (7.0, 8.0), (9.0, 10.0)];
     for rows in [
@@ -2614,6 +2816,30 @@ fn new_streams(ctx: &mut Ctx, dir: &str) {
     ] {
         if let Some(idx) = ctx.begin() {
             build_traversal_case(ctx, idx, dir, &FileParam::File(vec![GRow::Well(l0.clone(), 0), GRow::Well(l1.clone(), 0)], clean), &route, &tree);
+        }
+    }
+    // witness of the (fixed) acceptance of non-finite coordinates: `+NaN`, an infinity, a literal beyond f32
+    for k in [14usize, 16, 17] {
+        if let Some(idx) = ctx.begin() {
+            load_case(ctx, idx, dir, &[GRow::Well(l0.clone(), 0), GRow::Bad(k), GRow::Well(l1.clone(), 0)], &clean);
+        }
+    }
+    // finite coordinates at the ends of the f32 range, trailing columns after the geometry
+    if let Some(idx) = ctx.begin() {
+        load_case(ctx, idx, dir, &[GRow::Well(vec![(3.0e38, 0.0), (-3.0e38, 0.0)], 0), GRow::Well(l0.clone(), 6), GRow::Well(l1.clone(), 9)], &clean);
+    }
+    // a lookup file that exists but does not open (mode 000, caller uid 65534): the loader's error, wrapped by the
+    // builder as a plugin error — not "file not found"
+    if is_root() {
+        let locked = FileShape { noperm: true, readable: false, ..clean };
+        if let Some(idx) = ctx.begin() {
+            build_traversal_case(ctx, idx, dir, &FileParam::File(vec![GRow::Well(l0.clone(), 0)], locked), &Some(json!("wkt")), &None);
+        }
+        if let Some(idx) = ctx.begin() {
+            build_uuid_case(ctx, idx, dir, &FileParam::File(vec!["a".to_string()], locked));
+        }
+        if let Some(idx) = ctx.begin() {
+            load_case(ctx, idx, dir, &[GRow::Well(l0.clone(), 0)], &locked);
         }
     }
     // witness of the (fixed) line_count hang: a two-row gzip geometry file and a uuid file cut off in the middle
@@ -3028,6 +3254,24 @@ pub fn run(ctx: &mut Ctx) -> &'static str {
             let Some(idx) = ctx.begin() else { continue };
             route_case(ctx, idx, f, &table, &route);
         }
+        if k % 4 == 0 {
+            // the same route over the table with NaNs and infinities put in (in-memory tables only)
+            let nonfinite = [f32::NAN, -f32::NAN, f32::from_bits(0x7F80_0001), f32::from_bits(0xFFA0_0000), f32::from_bits(0x7FFF_FFFF), f32::INFINITY, f32::NEG_INFINITY];
+            let mut t2 = table.clone();
+            for l in t2.iter_mut() {
+                for p in l.iter_mut() {
+                    if base.chance(1, 3) {
+                        p.0 = nonfinite[base.below(nonfinite.len())];
+                    }
+                    if base.chance(1, 4) {
+                        p.1 = nonfinite[base.below(nonfinite.len())];
+                    }
+                }
+            }
+            if let Some(idx) = ctx.begin() {
+                wkb_hex_case(ctx, idx, &t2, &route);
+            }
+        }
     }
     // ---- generated: generate_tree_output --------------------------------------------------------
     let n_tree = ctx.n(80, 4000);
@@ -3043,6 +3287,21 @@ pub fn run(ctx: &mut Ctx) -> &'static str {
         };
         let bound = if base.chance(1, 3) { n_rows + 1 + base.below(3) } else { n_rows };
         let tree = gen_tree(&mut base, size, bound, None);
+        let mut table = table;
+        if base.chance(1, 8) {
+            // zeros, subnormals and the ends of the f32 range in tree geometries too
+            let exotic = [0.0f32, -0.0, f32::from_bits(1), f32::from_bits(0x0040_0001), f32::MIN_POSITIVE, f32::MAX, f32::MIN, 3.0e38, 1.0e-40];
+            for l in table.iter_mut() {
+                for p in l.iter_mut() {
+                    if base.chance(1, 3) {
+                        p.0 = exotic[base.below(exotic.len())];
+                    }
+                    if base.chance(1, 3) {
+                        p.1 = exotic[base.below(exotic.len())];
+                    }
+                }
+            }
+        }
         for f in 0..5 {
             let Some(idx) = ctx.begin() else { continue };
             tree_case(ctx, idx, f, &table, &tree);
